@@ -102,7 +102,7 @@ def zero_test(de, dty=None):
     integer count as the same test."""
     if dty in ("usize", "u64", "u32", "u16", "u8") and de is not None:
         d0 = ir.peel(de, casts=False)
-        if d0[0] not in ('bin', 'un', 'discr', 'const', 'constdef'):
+        if d0[0] not in ('un', 'discr', 'const', 'constdef') and not (d0[0] == 'bin' and d0[1] in ('Eq', 'Ne', 'Lt', 'Le', 'Gt', 'Ge')):
             return de, 'zero', 'nonzero'
     de = ir.peel(de, casts=False)
     flip = False
